@@ -177,7 +177,7 @@ func c11Protocol(t *rapid.T, ev *evProp, maxN int) {
 			dealCh: make(chan dkg.DealBundle), respCh: make(chan dkg.ResponseBundle), justCh: make(chan dkg.JustificationBundle), phaseCh: make(chan dkg.Phase)}
 		if pn.byz {
 			nd.byz = "byzantine"
-			pn.fault = rapid.SampledFrom([]string{"absent", "forged-signature", "equivocate", "bad-share", "no-justification", "false-complaint", "late-duplicate"}).Draw(t, "fault."+nd.name)
+			pn.fault = rapid.SampledFrom([]string{"absent", "forged-signature", "equivocate", "bad-share", "no-justification", "false-complaint", "false-complaint+unsolicited-justification", "false-complaint+unsolicited-justification", "late-duplicate"}).Draw(t, "fault."+nd.name)
 		}
 		pn.cfg = pr.cfg(nd)
 		p, err := dkg.NewProtocol(pn.cfg, pn, pn, false)
@@ -255,7 +255,7 @@ func c11Protocol(t *rapid.T, ev *evProp, maxN int) {
 				pool = append(pool, p)
 			case nd.fault == "no-justification" && p.kind == "just":
 				pr.noJust[p.from] = true
-			case nd.fault == "false-complaint" && p.kind == "resp":
+			case (nd.fault == "false-complaint" || nd.fault == "false-complaint+unsolicited-justification") && p.kind == "resp":
 				for _, h := range nodes {
 					if !h.byz {
 						p.resp.Responses = append(p.resp.Responses, dkg.Response{DealerIndex: uint32(h.idx), Status: dkg.Complaint})
@@ -264,6 +264,16 @@ func c11Protocol(t *rapid.T, ev *evProp, maxN int) {
 				}
 				p.resp.Signature = sign(nd, p.resp)
 				pool = append(pool, p)
+				if nd.fault == "false-complaint+unsolicited-justification" {
+					// ... and, although nobody complained about IT, the same node broadcasts a correctly
+					// signed justification bundle (for this session, revealing nothing).  It is harmless
+					// in itself; it must not take the place of the bundle the honest dealer owes, however
+					// the two are ordered at each node.
+					jb := &dkg.JustificationBundle{DealerIndex: uint32(nd.idx), SessionID: append([]byte(nil), p.resp.SessionID...)}
+					jb.Signature = sign(nd, jb)
+					pool = append(pool, &protoPacket{kind: "just", just: jb, from: p.from, phase: dkg.JustifPhase, note: "unsolicited"})
+					pr.stats["unsolicited-justification-bundle"] = true
+				}
 			default:
 				if p.kind == "just" {
 					pr.justified[p.from] = true
